@@ -36,24 +36,57 @@ func byteEq(a, b uint8) bool    { return a == b }
 func unitVal(int) struct{}      { return struct{}{} }
 func unitEq(a, b struct{}) bool { return true }
 
-func counting2[K any](f func(a, b K) int, ctr *int64) func(a, b K) int {
-	if ctr == nil {
-		return f
-	}
-	return func(a, b K) int { *ctr++; return f(a, b) }
-}
-func countingLess[K any](f func(a, b K) bool, ctr *int64) func(a, b K) bool {
-	if ctr == nil {
-		return f
-	}
-	return func(a, b K) bool { *ctr++; return f(a, b) }
+// cprobe is what a counted comparator reports to: a call counter and an optional callback (used by
+// monitors to enforce a per-call comparison budget from inside the comparator).
+type cprobe struct {
+	n    int64
+	hook func()
 }
 
-func ctr(counted bool) *int64 {
+func counting2[K any](f func(a, b K) int, c *cprobe) func(a, b K) int {
+	if c == nil {
+		return f
+	}
+	return func(a, b K) int {
+		c.n++
+		if c.hook != nil {
+			c.hook()
+		}
+		return f(a, b)
+	}
+}
+func countingLess[K any](f func(a, b K) bool, c *cprobe) func(a, b K) bool {
+	if c == nil {
+		return f
+	}
+	return func(a, b K) bool {
+		c.n++
+		if c.hook != nil {
+			c.hook()
+		}
+		return f(a, b)
+	}
+}
+
+func ctr(counted bool) *cprobe {
 	if counted {
-		return new(int64)
+		return new(cprobe)
 	}
 	return nil
+}
+
+func (c *cprobe) counter() *int64 {
+	if c == nil {
+		return nil
+	}
+	return &c.n
+}
+
+func (c *cprobe) setHook() func(func()) {
+	if c == nil {
+		return func(func()) {}
+	}
+	return func(f func()) { c.hook = f }
 }
 
 // IntLessMap: tree.NewMap with the natural less.
@@ -64,7 +97,7 @@ func IntLessMap(counted bool) Config[int, int] {
 		Name: "map[int]int/NewMap(<)", KeyOf: ident, Class: ident,
 		Cmp:   func(a, b int) int { return sign(a - b) },
 		New:   func() SUT[int, int] { return NewMapSUT(tree.NewMap[int, int](less)) },
-		ValOf: intVal, ValEq: intEq, Counter: c, PerCompare: 2,
+		ValOf: intVal, ValEq: intEq, Counter: c.counter(), SetCompareHook: c.setHook(), PerCompare: 2,
 	}
 }
 
@@ -76,7 +109,7 @@ func IntCmpMap(counted bool) Config[int, int] {
 		Name: "map[int]int/NewMapCmp(sign)", KeyOf: ident, Class: ident,
 		Cmp:   func(a, b int) int { return sign(a - b) },
 		New:   func() SUT[int, int] { return NewMapSUT(tree.NewMapCmp[int, int](cmp)) },
-		ValOf: intVal, ValEq: intEq, Counter: c, PerCompare: 1,
+		ValOf: intVal, ValEq: intEq, Counter: c.counter(), SetCompareHook: c.setHook(), PerCompare: 1,
 	}
 }
 
@@ -88,7 +121,7 @@ func IntMagCmpMap(counted bool) Config[int, string] {
 		Name: "map[int]string/NewMapCmp(a-b magnitudes)", KeyOf: ident, Class: ident,
 		Cmp:   func(a, b int) int { return sign(a - b) },
 		New:   func() SUT[int, string] { return NewMapSUT(tree.NewMapCmp[int, string](cmp)) },
-		ValOf: strVal, ValEq: strEq, Counter: c, PerCompare: 1,
+		ValOf: strVal, ValEq: strEq, Counter: c.counter(), SetCompareHook: c.setHook(), PerCompare: 1,
 	}
 }
 
@@ -100,7 +133,7 @@ func IntReversedMap(counted bool) Config[int, int] {
 		Name: "map[int]int/NewMap(>)", KeyOf: ident, Class: ident, Reversed: true,
 		Cmp:   func(a, b int) int { return sign(b - a) },
 		New:   func() SUT[int, int] { return NewMapSUT(tree.NewMap[int, int](less)) },
-		ValOf: intVal, ValEq: intEq, Counter: c, PerCompare: 2,
+		ValOf: intVal, ValEq: intEq, Counter: c.counter(), SetCompareHook: c.setHook(), PerCompare: 2,
 	}
 }
 
@@ -114,7 +147,7 @@ func IntCoarseCmpMap(counted bool) Config[int, int] {
 		Class: func(j int) int { return floorDiv(j, 4) },
 		Cmp:   base,
 		New:   func() SUT[int, int] { return NewMapSUT(tree.NewMapCmp[int, int](cmp)) },
-		ValOf: intVal, ValEq: intEq, Counter: c, PerCompare: 1,
+		ValOf: intVal, ValEq: intEq, Counter: c.counter(), SetCompareHook: c.setHook(), PerCompare: 1,
 	}
 }
 
@@ -128,7 +161,7 @@ func IntCoarseLessMap(counted bool) Config[int, string] {
 		Class: func(j int) int { return floorDiv(j, 3) },
 		Cmp:   base,
 		New:   func() SUT[int, string] { return NewMapSUT(tree.NewMap[int, string](less)) },
-		ValOf: strVal, ValEq: strEq, Counter: c, PerCompare: 2,
+		ValOf: strVal, ValEq: strEq, Counter: c.counter(), SetCompareHook: c.setHook(), PerCompare: 2,
 	}
 }
 
@@ -150,7 +183,7 @@ func PairMap(counted bool) Config[Pair, string] {
 		KeyOf: func(j int) Pair { return Pair{floorDiv(j, 7), j - 7*floorDiv(j, 7)} }, Class: ident,
 		Cmp:   base,
 		New:   func() SUT[Pair, string] { return NewMapSUT(tree.NewMap[Pair, string](less)) },
-		ValOf: strVal, ValEq: strEq, Counter: c, PerCompare: 2,
+		ValOf: strVal, ValEq: strEq, Counter: c.counter(), SetCompareHook: c.setHook(), PerCompare: 2,
 	}
 }
 
@@ -167,7 +200,7 @@ func StringByteMap(counted bool) Config[string, uint8] {
 		Name: "map[string]uint8/NewMapCmp(strings.Compare)", KeyOf: strKey, Class: ident,
 		Cmp:   strings.Compare,
 		New:   func() SUT[string, uint8] { return NewMapSUT(tree.NewMapCmp[string, uint8](cmp)) },
-		ValOf: byteVal, ValEq: byteEq, Counter: c, PerCompare: 1,
+		ValOf: byteVal, ValEq: byteEq, Counter: c.counter(), SetCompareHook: c.setHook(), PerCompare: 1,
 	}
 }
 
@@ -179,7 +212,7 @@ func IntLessSet(counted bool) Config[int, struct{}] {
 		Name: "set[int]/NewSet(<)", KeyOf: ident, Class: ident,
 		Cmp:   func(a, b int) int { return sign(a - b) },
 		New:   func() SUT[int, struct{}] { return NewSetSUT(tree.NewSet[int](less)) },
-		ValOf: unitVal, ValEq: unitEq, Counter: c, PerCompare: 2,
+		ValOf: unitVal, ValEq: unitEq, Counter: c.counter(), SetCompareHook: c.setHook(), PerCompare: 2,
 	}
 }
 
@@ -191,7 +224,7 @@ func IntCmpSetReversed(counted bool) Config[int, struct{}] {
 		Name: "set[int]/NewSetCmp(reversed magnitudes)", KeyOf: ident, Class: ident, Reversed: true,
 		Cmp:   func(a, b int) int { return sign(b - a) },
 		New:   func() SUT[int, struct{}] { return NewSetSUT(tree.NewSetCmp[int](cmp)) },
-		ValOf: unitVal, ValEq: unitEq, Counter: c, PerCompare: 1,
+		ValOf: unitVal, ValEq: unitEq, Counter: c.counter(), SetCompareHook: c.setHook(), PerCompare: 1,
 	}
 }
 
@@ -206,7 +239,7 @@ func StringCoarseSet(counted bool) Config[string, struct{}] {
 		Class: func(j int) int { return floorDiv(j+1_000_000_000, 10) },
 		Cmp:   base,
 		New:   func() SUT[string, struct{}] { return NewSetSUT(tree.NewSet[string](less)) },
-		ValOf: unitVal, ValEq: unitEq, Counter: c, PerCompare: 2,
+		ValOf: unitVal, ValEq: unitEq, Counter: c.counter(), SetCompareHook: c.setHook(), PerCompare: 2,
 	}
 }
 
